@@ -218,6 +218,11 @@ class Bw64Reader(object):
                 chunkSize = self._ds64.dataSize
             elif chunkId in self._ds64.table:
                 chunkSize = self._ds64.table[chunkId]
+        elif chunkId == b'data' and chunkSize == 0xFFFFFFFF:
+            # a data chunk of this size does not fit into a plain RIFF file;
+            # this is the placeholder the writer leaves until close()
+            raise ValueError(
+                "data chunk size has not been set; the file was not closed properly")
         return (chunkId, chunkSize)
 
     def _read_chunks(self):
